@@ -59,7 +59,7 @@ def one_case(rng, R, sample=False):
         R.count('filter:lists-with-nb-twins')
     cats = [refcat.from_ref(c) for c in cats_ref]
     vocab = [f'w{i}' for i in range(rng.randint(2, 12))] + ['(', ',', 'The', 'the']
-    nsent = rng.randint(1, 6)
+    nsent = rng.randint(1, 6) if rng.random() > 0.02 else rng.randint(21, 30)     # rarely: more sentences than one parser chunk
     single = nsent == 1 and rng.random() < 0.5
     doc, scores = [], []
     for _ in range(nsent):
